@@ -74,11 +74,13 @@ type stats struct {
 	rdrOps    int64
 	inReader  bool
 	baseLimit int64
+	opEOF     bool // the source itself reported io.EOF during the current public call
 }
 
 func (s *stats) begin(mult int64, reader bool) {
 	s.opLimit = s.baseLimit * mult
 	s.opCalls = 0
+	s.opEOF = false
 	s.ringN = 0
 	s.inReader = reader
 	if reader {
@@ -148,6 +150,7 @@ func (r *rsSource) Read(p []byte) (int, error) {
 		return 0, err
 	}
 	if r.pos >= int64(len(r.b)) {
+		r.st.opEOF = true
 		return 0, io.EOF
 	}
 	n := copy(p, r.b[r.pos:])
@@ -190,11 +193,13 @@ func (r *raSource) ReadAt(p []byte, off int64) (int, error) {
 		return 0, errors.New("racireplay: negative ReadAt")
 	}
 	if off >= int64(len(r.b)) {
+		r.st.opEOF = true
 		return 0, io.EOF
 	}
 	n := copy(p, r.b[off:])
 	r.st.nbytes += int64(n)
 	if n < len(p) {
+		r.st.opEOF = true
 		return n, io.EOF
 	}
 	return n, nil
@@ -220,7 +225,8 @@ func chunkRec(c rac.Chunk) []int64 {
 type readRec struct {
 	E       int      `json:"e"` // 0 read to io.EOF, 1 error, 2 capped, 3 skipped, 4 no progress
 	N       [2]int64 `json:"n"`
-	Zero    bool     `json:"zero"` // every byte delivered was 0
+	Zero    bool     `json:"zero"`   // every byte delivered was 0
+	EofSrc  bool     `json:"eofsrc"` // the Read that returned io.EOF had seen the SOURCE report io.EOF
 	Hash    string   `json:"h"`
 	SeekErr int      `json:"se"` // number of failed Seek/Read-after-Seek steps
 }
@@ -234,7 +240,8 @@ type runRec struct {
 	DsE      int       `json:"dse"`   // 0 ok, 1 error
 	DsEOF    bool      `json:"dseof"` // the error returned by DecompressedSize is io.EOF itself
 	Ds       [2]int64  `json:"ds"`
-	WalkE    int       `json:"we"` // 0 ended with io.EOF, 1 error, 2 capped
+	WalkE    int       `json:"we"`      // 0 ended with io.EOF, 1 error, 2 capped
+	WEofSrc  bool      `json:"weofsrc"` // the NextChunk that returned io.EOF had seen the SOURCE report io.EOF
 	Walk     [][]int64 `json:"walk"`
 	Seeks    [][]int64 `json:"seeks"` // [pos.hi,pos.lo,neg,e(0 chunk,1 EOF,2 error), chunk...]
 	Rz       readRec   `json:"rz"`
@@ -328,6 +335,7 @@ func runOnce(data []byte, claimed int64, useRA bool, budgetx int64, maxSeeks int
 		st.end()
 		if err == io.EOF {
 			res.WalkE = 0
+			res.WEofSrc = st.opEOF
 			break
 		}
 		if err != nil {
@@ -443,6 +451,7 @@ func runOnce(data []byte, claimed int64, useRA bool, budgetx int64, maxSeeks int
 			n += int64(k)
 			if err == io.EOF {
 				out.E = 0
+				out.EofSrc = st.opEOF
 				break
 			}
 			if err != nil {
